@@ -54,7 +54,7 @@ REQUIRED_CLASSES = [
     'node_rounding_limited', 'fwhm_ignores_foreign_parameters', 'composite_renamed_ok', 'mixture_ok', 'x_layout_independent', 'history_state_ok', 'history_use_then_rename',
 ]
 
-PREFIXES = ('', 'p_', 'peak_', 'a', 'ü ')
+PREFIXES = ('', 'p_', 'peak_', 'a', 'ü ', 'pk(1)+[0].*|?\\^$_')  # the last one: every character that means something to a pattern language
 EXTRA_PREFIXES = ('bkg_', 'scale', 'loc_', 'amplitude', ' ', '1', 'a long prefix with spaces ')  # thorough tier only
 XUNITS = ('angstrom', 'us', 'one')
 YUNITS = ('counts', 'one')
